@@ -5,8 +5,14 @@ REPO = os.environ.get("VERIF_REPO", "/repo")
 LEAN = os.path.join(VERIF, "lean")
 HARNESS = os.path.join(VERIF, "harness")
 CACHE = os.path.join(VERIF, ".cache")
-OUT = os.path.join(VERIF, "out")
-EVIDENCE = os.path.join(VERIF, "evidence")
+# VERIF_SCRATCH_OUT: seed / sweep runs on a snapshot of the repository write replays and evidence there,
+# never into the committed evidence directory (which must come from runs against /repo itself)
+_scr = os.environ.get("VERIF_SCRATCH_OUT")
+OUT = os.path.join(_scr, "out") if _scr else os.path.join(VERIF, "out")
+EVIDENCE = os.path.join(_scr, "evidence") if _scr else os.path.join(VERIF, "evidence")
+if _scr:
+    os.makedirs(OUT, exist_ok=True)
+    os.makedirs(EVIDENCE, exist_ok=True)
 DRV = os.path.join(LEAN, ".lake", "build", "bin", "gocodrv")
 
 GOENV = dict(os.environ, GOFLAGS="-mod=mod", GOPROXY="off", GOSUMDB="off", GOTOOLCHAIN="local",
